@@ -234,7 +234,10 @@ def p4(fb, chk, hr, tag):
     for f in fb.find(self_adt="BackendReqHandler"):
         for w in field_writes(f):
             if (w["adt"] or "").endswith("::BackendReqHandler") and f.locals and w["field"] not in roles.values():
-                rvty = None
+                # the flag is a bool; counters and other bookkeeping fields added to the struct are not candidates
+                fty = (w["proj"][-1].get("ty") or "") if w.get("proj") else ""
+                if fty and fty != "bool":
+                    continue
                 writers.append((f, w))
     upd = [(f, w) for (f, w) in writers if f.name not in ("new", "set_failed") and f.key != hr.key]
     flag_writers = {}
